@@ -225,3 +225,54 @@ def gen_clock(info):
 
 
 GENERATORS.append(gen_clock)
+
+
+def gen_calib(info):
+    """The whole coefficient table as exact decimals (json parsed with parse_float=str), launch-date floats."""
+    from importlib.resources import files
+    from pygac.calibration.noaa import Calibrator
+    path = files("pygac") / "data/calibration.json"
+    with open(path) as fh:
+        table = json.load(fh, parse_float=str, parse_int=str)
+
+    def opt(v):
+        return "none" if v is None else "(some %s)" % lrat(Fraction(v))
+
+    sats = sorted(k for k, v in table.items() if isinstance(v, dict) and "channel_1" in v)
+    out = [HEADER, "namespace PygacModel.Generated\n",
+           "/-- (spacecraft, launch date as the 5-decimal year float the code computes, "
+           "[ch1, ch2, ch3a] x (dark_count, gain_switch, s0, s1, s2)) -/\n"]
+    rows = []
+    for sat in sorted(sats):
+        cal = Calibrator(sat)
+        ld = Fraction(repr(Calibrator.date2float(cal.date_of_launch)))
+        chans = []
+        for ch in ("channel_1", "channel_2", "channel_3a"):
+            c = table[sat][ch]
+            chans.append("(%s, %s, %s, %s, %s)" % (lrat(Fraction(c["dark_count"])), opt(c["gain_switch"]),
+                                                   lrat(Fraction(c["s0"])), lrat(Fraction(c["s1"])), lrat(Fraction(c["s2"]))))
+        rows.append("(%s, %s, [%s])" % (lstr(sat), lrat(ld), ",\n    ".join(chans)))
+    out.append("def solarTable : List (String × Rat × List (Rat × Option Rat × Rat × Rat × Rat)) := %s\n" % llist(rows))
+    # thermal
+    trows = []
+    for sat in sorted(sats):
+        chans = []
+        for ch in ("channel_3b", "channel_4", "channel_5"):
+            c = table[sat][ch]
+            chans.append("(%s)" % ", ".join(lrat(Fraction(c[k])) for k in (
+                "b0", "b1", "b2", "centroid_wavenumber", "space_radiance", "to_eff_blackbody_intercept",
+                "to_eff_blackbody_slope")))
+        ds = []
+        for t in range(1, 5):
+            th = table[sat].get("thermometer_%d" % t, {})
+            ds.append("[%s]" % ", ".join(lrat(Fraction(th.get("d%d" % d, "0"))) for d in range(5)))
+        trows.append("(%s, [%s],\n   [%s])" % (lstr(sat), ",\n    ".join(chans), ",\n    ".join(ds)))
+    out.append("/-- (spacecraft, [3b, 4, 5] x (b0, b1, b2, nu, N_S, A, B), thermometers 1..4 x [d0..d4]) -/\n")
+    out.append("def thermalTable : List (String × List (Rat × Rat × Rat × Rat × Rat × Rat × Rat) × List (List Rat)) := %s\n"
+               % llist(trows))
+    out.append("end PygacModel.Generated\n")
+    info["calib_sats"] = sats
+    return "Calib.lean", "".join(out)
+
+
+GENERATORS.append(gen_calib)
